@@ -9,6 +9,7 @@ package staking
 import (
 	"math/big"
 
+	"github.com/youchainhq/go-youchain/bls"
 	"github.com/youchainhq/go-youchain/common"
 	"github.com/youchainhq/go-youchain/core/state"
 	"github.com/youchainhq/go-youchain/core/types"
@@ -36,6 +37,26 @@ func (s *Staking) VerifClearPool() {
 	s.mutex.Lock()
 	s.evidences = nil
 	s.mutex.Unlock()
+}
+
+// VerifTryAddEvidence is what the event loop of Start does when an Evidence event arrives, made non-blocking: it
+// appends and returns true if the pool mutex is free; it returns false if the mutex is held (the event loop would
+// block here and append as soon as the holder releases it — the caller does that append later).
+func (s *Staking) VerifTryAddEvidence(e Evidence) bool {
+	if !s.mutex.TryLock() {
+		return false
+	}
+	s.evidences = append(s.evidences, e)
+	s.mutex.Unlock()
+	return true
+}
+
+// VerifSetBlsManager replaces the module's BLS manager (a wrapper lets a harness observe that evidence processing is
+// in progress) and returns the previous one.
+func (s *Staking) VerifSetBlsManager(m bls.BlsManager) bls.BlsManager {
+	old := s.blsMgr
+	s.blsMgr = m
+	return old
 }
 
 // VerifProcessEvidences runs the real processEvidences (the function shared by slashing and
